@@ -111,16 +111,22 @@ def explain(c, bases):
 
 
 def run(ctx):
+    import time
+    t0 = time.time()
+    ph = {}
     binp = ctx.go_build()
     gen_consts(ctx, binp)
+    ph["go_build"] = round(time.time() - t0, 1)
     ctx.prove()
     model = ctx.model_ready(["Wire/Check.vo"])
+    ph["coq_make"] = round(time.time() - t0, 1)
     if ctx.replay:
         # cases are a deterministic function of (seed, tier): replay = re-run the same stream
         rp = json.load(open(ctx.replay))
         ctx.seed = rp.get("seed", ctx.seed)
         ctx.tier = rp.get("tier", ctx.tier)
     lines = ctx.run_json([binp, "run"])
+    ph["harness"] = round(time.time() - t0, 1)
     bases = {l["i"]: l for l in lines if l["k"] == "base"}
     cases = [l for l in lines if l["k"] == "case"]
     groups = collections.OrderedDict()
@@ -145,7 +151,9 @@ def run(ctx):
         return
     chunk = 450
     jobs, index = make_jobs(bases, groups, chunk)
-    results = ctx.coq_eval_many(jobs, workers=min(vlib.NCPU, 12))
+    results = ctx.coq_eval_many(jobs, workers=vlib.NCPU)
+    ph["coq_eval"] = round(time.time() - t0, 1)
+    ctx.cov["phase_s_cumulative"] = ph
     bad = {"model": [], "ref": [], "fs": [], "trunc": [], "wf": []}
     nwf_total = 0
     for part, res in zip(index, results):
